@@ -437,7 +437,9 @@ func w4() uint64 {
                 qcalls.append((fn + "#0", fn, []))
                 qrun.append('\tcall("%s#0", func() string { return show(%s()) })' % (fn, fn))
         # … and panic messages (printed as a Gallina string)
-        for pi, lit in enumerate(['"a\\"b"', '"odd \\x22"', '`raw "x`']):
+        panic_lits = ['"a\\"b"', '"odd \\x22"', '`raw "x`', '"a\\nb"', '`two\nlines`', '"tab\\there"']
+        panic_vals = ['a"b', 'odd "', 'raw "x', "a\nb", "two\nlines", "tab\there"]
+        for pi, lit in enumerate(panic_lits):
             qsrc += ["func qp%d(x uint64) uint64 {" % pi, "\tif x == 77 {", "\t\tpanic(%s)" % lit, "\t}", "\treturn %d" % (pi + 40), "}", "",
                      "func afterp%d() uint64 {" % pi, "\treturn %d" % (pi + 50), "}", ""]
             qcalls.append(("qp%d#0" % pi, "qp%d" % pi, ["u64:1"]))
@@ -455,6 +457,15 @@ func w4() uint64 {
             for qi in range(len(spellings)):
                 if "after%d" % qi in qr["rejected"]:
                     viol("C05: text of a string literal changed which definitions the file contains", {"proto": "c05-quotes", "literal": spellings[qi]}, "definition after%d present" % qi, "missing")
+            # a panic message that is emitted is emitted with its value (the printer indents what it prints: a line break inside the
+            # message would take the indentation into the string)
+            for pi, val in enumerate(panic_vals):
+                pd = k4.emitted_def(qr["text"], "qp%d" % pi)
+                pm = re.search(r'Panic "(.*?)"', pd or "", re.S)
+                stats["panic_messages_checked"] += 1
+                if pd and (pm is None or pm.group(1) != val):
+                    viol("C05: a panic message is accepted and emitted with another text than its value", {"proto": "c05-quotes", "panic_literal": panic_lits[pi], "emitted": pd},
+                         {"message": val}, {"emitted_message": pm.group(1) if pm else None})
             for mm in qr["mismatches"]:
                 viol("C05: a string literal with a quote is accepted and means something else", {"proto": "c05-quotes", "function": mm["fn"], "emitted": k4.emitted_def(qr["text"], mm["fn"])},
                      {"go": mm["go"]}, {"gooselang": mm["gl"]})
